@@ -8,6 +8,7 @@ import (
 	"time"
 
 	"github.com/maypok86/otter/v2/internal/deque"
+	"github.com/maypok86/otter/v2/internal/expiration"
 	"github.com/maypok86/otter/v2/internal/generated/node"
 	"github.com/maypok86/otter/v2/internal/hashmap"
 )
@@ -132,6 +133,11 @@ func ghost_arg_onDeletion_2() DeletionCause                 { panic("ghost") }
 func ghost_queued() int                                                    { panic("ghost") }
 func ghost_calls_performCleanUp() int                                      { panic("ghost") }
 func ghost_last_performCleanUp_t[K comparable, V any]() *task[K, V]        { panic("ghost") }
+func ghost_last_notifyDeletion_key[K comparable]() K                       { panic("ghost") }
+func ghost_last_notifyDeletion_value[V any]() V                            { panic("ghost") }
+func ghost_last_notifyDeletion_cause() DeletionCause                       { panic("ghost") }
+func ghost_last_runTask_t[K comparable, V any]() *task[K, V]               { panic("ghost") }
+func ghost_last_maintenance_t[K comparable, V any]() *task[K, V]           { panic("ghost") }
 func ghost_calls_afterWriteTask() int                                      { panic("ghost") }
 func ghost_last_afterWriteTask_t[K comparable, V any]() *task[K, V]        { panic("ghost") }
 func ghost_calls_getTask() int                                            { panic("ghost") }
@@ -197,6 +203,19 @@ func cfg[K comparable, V any](c *cache[K, V]) bool {
 	return ghost_hasExp() == c.withExpiration && ghost_hasRefresh() == c.withRefresh && ghost_hasWeight() == c.isWeighted &&
 		ghost_hasSize() == c.withEviction && ghost_hasState() == c.withMaintenance && ghost_hasExpLinks() == c.withExpiration &&
 		c.withMaintenance == (c.withEviction || c.withExpiration) && c.withTime == (c.withExpiration || c.withRefresh)
+}
+
+// wired: the maintenance structures the configuration asks for exist and are well-formed (established by newCache,
+// kept by every maintenance step).
+func wired[K comparable, V any](c *cache[K, V]) bool {
+	return c.singleflight != nil &&
+		(!c.withEviction || (c.evictionPolicy != nil && wfPolicy(c.evictionPolicy) && c.evictionPolicy.maximum <= 1<<62)) &&
+		(!c.withExpiration || (c.expirationPolicy != nil && expiration.SpecWfWheel(c.expirationPolicy)))
+}
+
+// taskWf: a write event names the node it is about, and an update names two different nodes.
+func taskWf[K comparable, V any](t *task[K, V]) bool {
+	return t.n != nil && (t.writeReason == addReason || t.writeReason == deleteReason || (t.writeReason == updateReason && t.old != nil && t.old != t.n))
 }
 
 // live: the entry exists and its deadline has not been reached.
@@ -345,7 +364,6 @@ func estOf[K comparable](s *sketch[K], k K) uint64 {
 //@ fieldinv ghost_refreshableAt: v >= 0
 //@ fieldinv ghost_queueType: v <= 2
 
-//@ macro MAINT = node::state, node::queueType, node::prev, node::next, node::prevExp, node::nextExp, ghost_tbl(*), policy::*, Variable::*, Linked::*, sketch::*, cache::drainStatus, cache::evictionMutex, task::*
 
 // ---------------------------------------------------------------------------------------------
 // Clock
@@ -365,10 +383,13 @@ func estOf[K comparable](s *sketch[K], k K) uint64 {
 //@ macro EVLOG = ghost_evictions(), ghost_evictionWeight()
 //@ macro LINKFX = node::prev, node::next, node::prevExp, node::nextExp, Linked::head, Linked::tail, Linked::len
 //@ macro ATOMICEV = ghost_calls_onAtomicDeletion()
-//@ macro ONDEL = ghost_calls_onDeletion()
+//@ macro EVDELTA = uint64(ghost_calls_notifyDeletion()) - ghost_evictions()
+//@ macro ONDEL = ghost_calls_onDeletion(), ghost_calls_notifyDeletion()
 //@ macro WHOOKS = ghost_calls_ExpireAfterCreate(), ghost_ret_ExpireAfterCreate(), ghost_calls_ExpireAfterUpdate(), ghost_ret_ExpireAfterUpdate(), ghost_calls_weigher(), ghost_ret_weigher(), $RHOOKS
+// footprint of a maintenance run: the policies, the wheel, the table (evictions), and the removal notifications of the entries it evicts
+//@ macro MAINT = node::state, node::queueType, node::prev, node::next, node::prevExp, node::nextExp, ghost_tbl(*), ghost_calls(*), ghost_inWheel(*), ghost_inDeque(*), policy::*, Variable::*, Linked::*, sketch::*, []uint64::*, cache::drainStatus, cache::evictionMutex, ghost_calls_evictNode(), ghost_calls_rand(), ghost_ret_rand(), $EVLOG, $ONDEL, $ATOMICEV
 
-//@ macro CACHEFX = $MAINT, $EVLOG, $ONDEL, $ATOMICEV, $WHOOKS, ghost_calls(*), node::expiresAt, node::refreshableAt, ghost_wgDone(*), call::wg, ghost_calls_afterWrite(), ghost_calls_afterDelete(), ghost_now(), ghost_clockRead(), ghost_calls_ExpireAfterRead(), ghost_ret_ExpireAfterRead()
+//@ macro CACHEFX = $MAINT, $EVLOG, $ONDEL, $ATOMICEV, $WHOOKS, ghost_calls(*), node::expiresAt, node::refreshableAt, ghost_wgDone(*), call::wg, ghost_calls_afterWrite(), ghost_calls_afterDelete(), ghost_queued(), ghost_calls_performCleanUp(), ghost_calls_afterWriteTask(), ghost_calls_runTask(), ghost_calls_getTask(), ghost_now(), ghost_clockRead(), ghost_calls_ExpireAfterRead(), ghost_ret_ExpireAfterRead(), task::*
 
 //@ macro LOADFX = $CACHEFX, call::value, call::err, call::isNotFound, ghost_calls_load(), ghost_calls_afterFinish(), ghost_calls_doCall(), ghost_calls_startCall(), ghost_loadSuccess(), ghost_loadFailure(), ghost_calls_fn(), ghost_ret_fn(), ghost_calls_Error()
 
@@ -600,7 +621,8 @@ func estOf[K comparable](s *sketch[K], k K) uint64 {
 //@   ensures [C06:no-handler-no-event] c.onAtomicDeletion == nil ==> ghost_calls_onAtomicDeletion() == pre(ghost_calls_onAtomicDeletion())
 
 //@ func (*cache).notifyDeletion : C06
-//@   modifies $ONDEL
+//@   counted
+//@   modifies ghost_calls_onDeletion()
 //@   ensures [C06:deletion-event-delivered] c.onDeletion != nil ==> ghost_calls_onDeletion() == pre(ghost_calls_onDeletion()) + 1 && same(ghost_arg_onDeletion_0[K](), key) && same(ghost_arg_onDeletion_1[V](), value) && ghost_arg_onDeletion_2() == cause
 //@   ensures [C06:no-handler-no-event] c.onDeletion == nil ==> ghost_calls_onDeletion() == pre(ghost_calls_onDeletion())
 
@@ -660,21 +682,28 @@ func estOf[K comparable](s *sketch[K], k K) uint64 {
 //@ func (*cache).afterWrite : C01 C03 C05 C06 C09
 //@   counted
 //@   requires cfg(c) && n != nil
-//@   modifies $MAINT, $EVLOG, $ONDEL, ghost_queued(), ghost_calls_performCleanUp(), ghost_calls_afterWriteTask(), ghost_calls_getTask()
+//@   modifies $MAINT, $EVLOG, $ONDEL, ghost_queued(), ghost_calls_performCleanUp(), ghost_calls_afterWriteTask(), ghost_calls_getTask(), task::*
 //@   ensures [C06:replacement-reported-without-maintenance] !c.withMaintenance && old != nil && c.onDeletion != nil ==> ghost_calls_onDeletion() == pre(ghost_calls_onDeletion()) + 1 && same(ghost_arg_onDeletion_1[V](), ghost_value(old)) && ghost_arg_onDeletion_2() == CauseReplacement
 //@   site afterWriteTask: requires [C05:event-carries-the-written-nodes] ghost_last_getTask_result[K, V]() != nil && ghost_last_getTask_result[K, V]().n == n && ghost_last_getTask_result[K, V]().old == old
 //@   site afterWriteTask: requires [C06:event-carries-truthful-cause] (old == nil ==> ghost_last_getTask_result[K, V]().writeReason == addReason) && (old != nil ==> ghost_last_getTask_result[K, V]().writeReason == updateReason && ghost_last_getTask_result[K, V]().deletionCause == pickCause(live(old, nowNano), CauseReplacement, CauseExpiration))
 //@   ensures [C05:one-write-event-per-write] c.withMaintenance ==> ghost_calls_afterWriteTask() == pre(ghost_calls_afterWriteTask()) + 1 && ghost_last_afterWriteTask_t[K, V]() == ghost_last_getTask_result[K, V]()
 
-//@ func (*cache).runTask : C05 C06
-//@   assumed footprint only (applies one write event to the policies; see policy.add/update/delete and Variable.Add/Delete for the verified steps)
+//@ func (*cache).runTask : C05 C06 C04 C07
 //@   counted
-//@   modifies $MAINT, $EVLOG, $ONDEL
+//@   requires cfg(c) && wired(c) && (t != nil ==> c.withMaintenance && taskWf(t))
+//@   modifies $MAINT, t.n, t.old, t.writeReason, t.deletionCause
+//@   ensures [wiring-kept] wired(c)
+//@   ensures [C05:no-event-nothing-told] t == nil ==> ghost_calls_notifyDeletion() == pre(ghost_calls_notifyDeletion()) && ghost_evictions() == pre(ghost_evictions())
+//@   ensures [C06:write-event-notifies-exactly-once] t != nil ==> $EVDELTA == pre($EVDELTA) + pickU64(pre(t.writeReason) != addReason, 1, 0)
+//@   ensures [C06:replaced-value-reported-with-its-cause] t != nil && pre(t.writeReason) == updateReason ==> same(ghost_last_notifyDeletion_key[K](), ghost_key(pre(t.old))) && same(ghost_last_notifyDeletion_value[V](), ghost_value(pre(t.old))) && ghost_last_notifyDeletion_cause() == pre(t.deletionCause)
+//@   ensures [C06:removed-value-reported-with-its-cause] t != nil && pre(t.writeReason) == deleteReason ==> same(ghost_last_notifyDeletion_key[K](), ghost_key(pre(t.n))) && same(ghost_last_notifyDeletion_value[V](), ghost_value(pre(t.n))) && ghost_last_notifyDeletion_cause() == pre(t.deletionCause)
+//@   ensures [C05:removed-node-untracked] t != nil && pre(t.writeReason) == deleteReason ==> (c.withExpiration ==> !ghost_inWheel(pre(t.n))) && (c.withEviction ==> ghost_state(pre(t.n)) == 2 && !ghost_inDeque(queueOf(c.evictionPolicy, pre(t.n)), pre(t.n)))
+//@   ensures [C05:replaced-node-untracked] t != nil && pre(t.writeReason) == updateReason ==> (c.withEviction ==> ghost_state(pre(t.old)) == 2)
 
 //@ func (*cache).afterDelete : C01 C03 C05 C06 C09
 //@   counted
-//@   requires cfg(c)
-//@   modifies $MAINT, $EVLOG, $ONDEL, ghost_queued(), ghost_calls_performCleanUp(), ghost_calls_afterWriteTask(), ghost_calls_runTask(), ghost_calls_getTask()
+//@   requires cfg(c) && (alreadyLocked ==> wired(c))
+//@   modifies $MAINT, $EVLOG, $ONDEL, ghost_queued(), ghost_calls_performCleanUp(), ghost_calls_afterWriteTask(), ghost_calls_runTask(), ghost_calls_getTask(), task::*
 //@   site afterWriteTask: requires [C05:delete-event-carries-the-removed-node] ghost_last_getTask_result[K, V]() != nil && ghost_last_getTask_result[K, V]().n == deleted && ghost_last_getTask_result[K, V]().writeReason == deleteReason && ghost_last_getTask_result[K, V]().deletionCause == pickCause(live(deleted, nowNano), CauseInvalidation, CauseExpiration)
 //@   ensures [C05:nothing-removed-nothing-told] deleted == nil ==> ghost_calls_afterWriteTask() == pre(ghost_calls_afterWriteTask()) && ghost_calls_runTask() == pre(ghost_calls_runTask()) && ghost_calls_onDeletion() == pre(ghost_calls_onDeletion())
 //@   ensures [C06:invalidation-reported-without-maintenance] deleted != nil && !c.withMaintenance && c.onDeletion != nil ==> ghost_calls_onDeletion() == pre(ghost_calls_onDeletion()) + 1 && same(ghost_arg_onDeletion_1[V](), ghost_value(deleted))
@@ -724,8 +753,8 @@ func estOf[K comparable](s *sketch[K], k K) uint64 {
 //@   ensures [C01:installs-unless-present-and-only-if-absent] !onlyIfAbsent || !lp(live(ghost_tbl(c.hashmap, key), ghost_now())) ==> lpend(ghost_lpNew(c.hashmap)) != nil && lpend(ghost_lpNew(c.hashmap)) != lpend(ghost_lpCur(c.hashmap)) && same(ghost_value(lpend(ghost_lpNew(c.hashmap))), value) && same(ghost_key(lpend(ghost_lpNew(c.hashmap))), key)
 //@   ensures [C01:set-if-absent-keeps-present] onlyIfAbsent && lp(live(ghost_tbl(c.hashmap, key), ghost_now())) ==> lpend(ghost_lpNew(c.hashmap)) == lpend(ghost_lpCur(c.hashmap))
 //@   ensures [C01:one-atomic-access] lpend(ghost_lpCount(c.hashmap)) == pre(ghost_lpCount(c.hashmap)) + 1 && lpend(ghost_lpCur(c.hashmap)) == lp(ghost_tbl(c.hashmap, key))
-//@   ensures [C06:atomic-once] c.onAtomicDeletion != nil ==> ghost_calls_onAtomicDeletion() == pre(ghost_calls_onAtomicDeletion()) + pickInt(lpend(ghost_lpCur(c.hashmap)) != nil && lpend(ghost_lpNew(c.hashmap)) != lpend(ghost_lpCur(c.hashmap)), 1, 0)
-//@   ensures [C06:reported-value-and-cause] c.onAtomicDeletion != nil && lpend(ghost_lpCur(c.hashmap)) != nil && lpend(ghost_lpNew(c.hashmap)) != lpend(ghost_lpCur(c.hashmap)) ==> same(ghost_arg_onAtomicDeletion_1[V](), ghost_value(lpend(ghost_lpCur(c.hashmap)))) && ghost_arg_onAtomicDeletion_2() == pickCause(lp(live(ghost_tbl(c.hashmap, key), ghost_now())), CauseReplacement, CauseExpiration)
+//@   ensures [C06:atomic-once] c.onAtomicDeletion != nil ==> lpend(ghost_calls_onAtomicDeletion()) == lp(ghost_calls_onAtomicDeletion()) + pickInt(lpend(ghost_lpCur(c.hashmap)) != nil && lpend(ghost_lpNew(c.hashmap)) != lpend(ghost_lpCur(c.hashmap)), 1, 0)
+//@   ensures [C06:reported-value-and-cause] c.onAtomicDeletion != nil && lpend(ghost_lpCur(c.hashmap)) != nil && lpend(ghost_lpNew(c.hashmap)) != lpend(ghost_lpCur(c.hashmap)) ==> same(lpend(ghost_arg_onAtomicDeletion_1[V]()), ghost_value(lpend(ghost_lpCur(c.hashmap)))) && lpend(ghost_arg_onAtomicDeletion_2()) == pickCause(lp(live(ghost_tbl(c.hashmap, key), ghost_now())), CauseReplacement, CauseExpiration)
 //@   ensures [C05:policy-told-iff-table-changed] ghost_calls_afterWrite() == pre(ghost_calls_afterWrite()) + pickInt(lpend(ghost_lpNew(c.hashmap)) != lpend(ghost_lpCur(c.hashmap)), 1, 0)
 //@   ensures [C05:policy-told-the-right-nodes] lpend(ghost_lpNew(c.hashmap)) != lpend(ghost_lpCur(c.hashmap)) ==> ghost_last_afterWrite_n[K, V]() == lpend(ghost_lpNew(c.hashmap)) && ghost_last_afterWrite_old[K, V]() == lpend(ghost_lpCur(c.hashmap))
 //@   ensures [C09:write-clears-call] lpend(ghost_lpNew(c.hashmap)) != lpend(ghost_lpCur(c.hashmap)) && c.singleflight.isInitialized.Load() ==> lpend(ghost_calls(c.singleflight.calls, key)) == nil
@@ -751,8 +780,8 @@ func estOf[K comparable](s *sketch[K], k K) uint64 {
 //@   ensures [C03:expired-or-missing-reported-absent] !lp(live(ghost_tbl(c.hashmap, key), ghost_now())) ==> !invalidated && same(value, zeroValue[V]())
 //@   ensures [C01:present-reported-with-its-value] lp(live(ghost_tbl(c.hashmap, key), ghost_now())) ==> invalidated && same(value, lp(ghost_value(ghost_tbl(c.hashmap, key))))
 //@   ensures [C01:removes] lpend(ghost_lpNew(c.hashmap)) == nil && lpend(ghost_lpCount(c.hashmap)) == pre(ghost_lpCount(c.hashmap)) + 1
-//@   ensures [C06:atomic-once] c.onAtomicDeletion != nil ==> ghost_calls_onAtomicDeletion() == pre(ghost_calls_onAtomicDeletion()) + pickInt(lpend(ghost_lpCur(c.hashmap)) != nil, 1, 0)
-//@   ensures [C06:reported-value-and-cause] c.onAtomicDeletion != nil && lpend(ghost_lpCur(c.hashmap)) != nil ==> same(ghost_arg_onAtomicDeletion_1[V](), ghost_value(lpend(ghost_lpCur(c.hashmap)))) && ghost_arg_onAtomicDeletion_2() == pickCause(lp(live(ghost_tbl(c.hashmap, key), ghost_now())), CauseInvalidation, CauseExpiration)
+//@   ensures [C06:atomic-once] c.onAtomicDeletion != nil ==> lpend(ghost_calls_onAtomicDeletion()) == lp(ghost_calls_onAtomicDeletion()) + pickInt(lpend(ghost_lpCur(c.hashmap)) != nil, 1, 0)
+//@   ensures [C06:reported-value-and-cause] c.onAtomicDeletion != nil && lpend(ghost_lpCur(c.hashmap)) != nil ==> same(lpend(ghost_arg_onAtomicDeletion_1[V]()), ghost_value(lpend(ghost_lpCur(c.hashmap)))) && lpend(ghost_arg_onAtomicDeletion_2()) == pickCause(lp(live(ghost_tbl(c.hashmap, key), ghost_now())), CauseInvalidation, CauseExpiration)
 //@   ensures [C05:policy-told-iff-removed] ghost_calls_afterDelete() == pre(ghost_calls_afterDelete()) + 1 && ghost_last_afterDelete_deleted[K, V]() == lpend(ghost_lpCur(c.hashmap))
 //@   ensures [C09:write-clears-call] c.singleflight.isInitialized.Load() ==> lpend(ghost_calls(c.singleflight.calls, key)) == nil
 //@   ensures [C20:quiet] ghost_hits() == pre(ghost_hits()) && ghost_misses() == pre(ghost_misses())
@@ -779,8 +808,8 @@ func estOf[K comparable](s *sketch[K], k K) uint64 {
 //@   ensures [C01:invalidate-removes] ghost_ret_remappingFunc_1() == InvalidateOp ==> lpend(ghost_lpNew(c.hashmap)) == nil
 //@   ensures [C01:result-is-table-content] r1 == (lpend(ghost_lpNew(c.hashmap)) != nil) && (r1 ==> same(r0, ghost_value(lpend(ghost_lpNew(c.hashmap))))) && (!r1 ==> same(r0, zeroValue[V]()))
 //@   ensures [C01:one-atomic-access] lpend(ghost_lpCount(c.hashmap)) == pre(ghost_lpCount(c.hashmap)) + 1 && lpend(ghost_lpCur(c.hashmap)) == lp(ghost_tbl(c.hashmap, key))
-//@   ensures [C06:atomic-once] c.onAtomicDeletion != nil ==> ghost_calls_onAtomicDeletion() == pre(ghost_calls_onAtomicDeletion()) + pickInt(lpend(ghost_lpCur(c.hashmap)) != nil && lpend(ghost_lpNew(c.hashmap)) != lpend(ghost_lpCur(c.hashmap)), 1, 0)
-//@   ensures [C06:reported-value-and-cause] c.onAtomicDeletion != nil && lpend(ghost_lpCur(c.hashmap)) != nil && lpend(ghost_lpNew(c.hashmap)) != lpend(ghost_lpCur(c.hashmap)) ==> same(ghost_arg_onAtomicDeletion_1[V](), ghost_value(lpend(ghost_lpCur(c.hashmap)))) && ghost_arg_onAtomicDeletion_2() == pickCause(lp(live(ghost_tbl(c.hashmap, key), nowNano)), pickCause(ghost_ret_remappingFunc_1() == WriteOp, CauseReplacement, CauseInvalidation), CauseExpiration)
+//@   ensures [C06:atomic-once] c.onAtomicDeletion != nil ==> lpend(ghost_calls_onAtomicDeletion()) == lp(ghost_calls_onAtomicDeletion()) + pickInt(lpend(ghost_lpCur(c.hashmap)) != nil && lpend(ghost_lpNew(c.hashmap)) != lpend(ghost_lpCur(c.hashmap)), 1, 0)
+//@   ensures [C06:reported-value-and-cause] c.onAtomicDeletion != nil && lpend(ghost_lpCur(c.hashmap)) != nil && lpend(ghost_lpNew(c.hashmap)) != lpend(ghost_lpCur(c.hashmap)) ==> same(lpend(ghost_arg_onAtomicDeletion_1[V]()), ghost_value(lpend(ghost_lpCur(c.hashmap)))) && lpend(ghost_arg_onAtomicDeletion_2()) == pickCause(lp(live(ghost_tbl(c.hashmap, key), nowNano)), pickCause(ghost_ret_remappingFunc_1() == WriteOp, CauseReplacement, CauseInvalidation), CauseExpiration)
 //@   ensures [C05:write-tells-policy] ghost_calls_afterWrite() == pre(ghost_calls_afterWrite()) + pickInt(ghost_ret_remappingFunc_1() == WriteOp, 1, 0) && (ghost_ret_remappingFunc_1() == WriteOp ==> ghost_last_afterWrite_n[K, V]() == lpend(ghost_lpNew(c.hashmap)) && ghost_last_afterWrite_old[K, V]() == lpend(ghost_lpCur(c.hashmap)))
 //@   ensures [C05:removal-tells-policy] ghost_ret_remappingFunc_1() != WriteOp && lpend(ghost_lpCur(c.hashmap)) != nil && lpend(ghost_lpNew(c.hashmap)) == nil ==> ghost_calls_afterDelete() == pre(ghost_calls_afterDelete()) + 1 && ghost_last_afterDelete_deleted[K, V]() == lpend(ghost_lpCur(c.hashmap))
 //@   ensures [C05:no-removal-no-delete-task] ghost_ret_remappingFunc_1() != WriteOp && lpend(ghost_lpNew(c.hashmap)) == lpend(ghost_lpCur(c.hashmap)) && lpend(ghost_lpCur(c.hashmap)) != nil ==> ghost_calls_afterDelete() == pre(ghost_calls_afterDelete())
@@ -901,18 +930,18 @@ func estOf[K comparable](s *sketch[K], k K) uint64 {
 //@ func (*cache).afterDeleteCall : C09 C10 C08 C11 C06 C01 C03
 //@   mode seq,itf
 //@   requires cfg(c) && c.singleflight != nil && cl != nil && c.singleflight.calls != nil && c.singleflight.isInitialized.Load()
-//@   modifies *
+//@   modifies $CACHEFX
 //@   ensures [clock-stable] pre(ghost_clockRead()) ==> ghost_clockRead() && ghost_now() == pre(ghost_now())
 //@   ensures [C09:install-only-own-call] lpend(ghost_lpNew(c.hashmap)) != lpend(ghost_lpCur(c.hashmap)) ==> cl.isFake || (lpend(ghost_clpCur(c.singleflight.calls)) == cl && lpend(ghost_clpNew(c.singleflight.calls)) == nil && lpend(ghost_clpCount(c.singleflight.calls)) != pre(ghost_clpCount(c.singleflight.calls)))
 //@   ensures [C09:own-record-checked-inside-the-critical-section] lpend(ghost_lpNew(c.hashmap)) != lpend(ghost_lpCur(c.hashmap)) && !cl.isFake ==> lp(ghost_clpCount(c.singleflight.calls)) == pre(ghost_clpCount(c.singleflight.calls)) && lpend(ghost_clpCount(c.singleflight.calls)) != lp(ghost_clpCount(c.singleflight.calls))
-//@   ensures @seq [C08:removes-only-its-own-record] ghost_calls(c.singleflight.calls, cl.key) == pickCall(!cl.isFake && pre(ghost_calls(c.singleflight.calls, cl.key)) == cl, nil, pre(ghost_calls(c.singleflight.calls, cl.key)))
+//@   ensures @seq [C08:removes-only-its-own-record] lpend(ghost_calls(c.singleflight.calls, cl.key)) == pickCall(!cl.isFake && pre(ghost_calls(c.singleflight.calls, cl.key)) == cl, nil, pre(ghost_calls(c.singleflight.calls, cl.key)))
 //@   ensures [C11:failed-reload-reschedules-refresh] cl.err != nil && !cl.isNotFound && cl.isRefresh && lpend(ghost_lpCur(c.hashmap)) != nil && c.withRefresh ==> ghost_calls_RefreshAfterReloadFailure() == pre(ghost_calls_RefreshAfterReloadFailure()) + 1
 //@   ensures [C10:success-installs-value] lpend(ghost_lpNew(c.hashmap)) != lpend(ghost_lpCur(c.hashmap)) && lpend(ghost_lpNew(c.hashmap)) != nil ==> cl.err == nil && !cl.isNotFound && same(ghost_value(lpend(ghost_lpNew(c.hashmap))), cl.value) && same(ghost_key(lpend(ghost_lpNew(c.hashmap))), cl.key)
 //@   ensures [C10:failure-leaves-cache-unchanged] cl.err != nil && !cl.isNotFound ==> lpend(ghost_lpNew(c.hashmap)) == lpend(ghost_lpCur(c.hashmap))
 //@   ensures [C10:notfound-caches-nothing] cl.isNotFound ==> lpend(ghost_lpNew(c.hashmap)) == nil || lpend(ghost_lpNew(c.hashmap)) == lpend(ghost_lpCur(c.hashmap))
 //@   ensures [C11:failed-reload-keeps-expiry] cl.err != nil && !cl.isNotFound && lpend(ghost_lpCur(c.hashmap)) != nil && c.withExpiration ==> lpend(ghost_expiresAt(ghost_tbl(c.hashmap, cl.key))) == lp(ghost_expiresAt(ghost_tbl(c.hashmap, cl.key)))
 //@   ensures [C08:waiters-released-once] ghost_wgDone(cl) == pre(ghost_wgDone(cl)) + pickInt(cl.isFake, 0, 1)
-//@   ensures [C06:atomic-once] c.onAtomicDeletion != nil ==> ghost_calls_onAtomicDeletion() == pre(ghost_calls_onAtomicDeletion()) + pickInt(lpend(ghost_lpCur(c.hashmap)) != nil && lpend(ghost_lpNew(c.hashmap)) != lpend(ghost_lpCur(c.hashmap)), 1, 0)
+//@   ensures [C06:atomic-once] c.onAtomicDeletion != nil ==> lpend(ghost_calls_onAtomicDeletion()) == lp(ghost_calls_onAtomicDeletion()) + pickInt(lpend(ghost_lpCur(c.hashmap)) != nil && lpend(ghost_lpNew(c.hashmap)) != lpend(ghost_lpCur(c.hashmap)), 1, 0)
 //@   ensures [C05:policy-told-iff-table-changed] ghost_calls_afterWrite() == pre(ghost_calls_afterWrite()) + pickInt(lpend(ghost_lpNew(c.hashmap)) != nil && lpend(ghost_lpNew(c.hashmap)) != lpend(ghost_lpCur(c.hashmap)), 1, 0) && ghost_calls_afterDelete() == pre(ghost_calls_afterDelete()) + pickInt(lpend(ghost_lpNew(c.hashmap)) == nil && lpend(ghost_lpCur(c.hashmap)) != nil, 1, 0)
 
 //@ func (*cache).wrapLoad : C20 C08
@@ -928,8 +957,8 @@ func estOf[K comparable](s *sketch[K], k K) uint64 {
 // Eviction policy: C07 (justified, truthful removals), C04 (oversized / zero-weight / bound), C05 (bookkeeping)
 // ---------------------------------------------------------------------------------------------
 
-//@ macro EVICTFX = cb_n.state, node::queueType, node::prev, node::next, node::prevExp, node::nextExp, ghost_inWheel(*), ghost_inDeque(*), policy::weightedSize, policy::windowWeightedSize, policy::mainProtectedWeightedSize, Linked::*, task::*, ghost_tbl(*), ghost_calls(*), $EVLOG, $ONDEL, $ATOMICEV
-//@ macro POLFX = node::state, node::queueType, node::prev, node::next, node::prevExp, node::nextExp, ghost_inWheel(*), ghost_inDeque(*), policy::weightedSize, policy::windowWeightedSize, policy::mainProtectedWeightedSize, policy::hitsInSample, policy::missesInSample, Linked::*, sketch::*, []uint64::*, task::*, ghost_tbl(*), ghost_calls(*), $EVLOG, $ONDEL, $ATOMICEV, ghost_calls_rand(), ghost_ret_rand()
+//@ macro EVICTFX = cb_n.state, node::queueType, node::prev, node::next, node::prevExp, node::nextExp, ghost_inWheel(*), ghost_inDeque(*), policy::weightedSize, policy::windowWeightedSize, policy::mainProtectedWeightedSize, Linked::*, ghost_tbl(*), ghost_calls(*), $EVLOG, $ONDEL, $ATOMICEV
+//@ macro POLFX = node::state, node::queueType, node::prev, node::next, node::prevExp, node::nextExp, ghost_inWheel(*), ghost_inDeque(*), policy::weightedSize, policy::windowWeightedSize, policy::mainProtectedWeightedSize, policy::hitsInSample, policy::missesInSample, Linked::*, sketch::*, []uint64::*, ghost_tbl(*), ghost_calls(*), $EVLOG, $ONDEL, $ATOMICEV, ghost_calls_rand(), ghost_ret_rand()
 
 //@ func (*policy).makeDead : C04 C05 C07
 //@   requires ghost_hasSize() && ghost_hasState() && n != nil
@@ -943,30 +972,39 @@ func estOf[K comparable](s *sketch[K], k K) uint64 {
 //@   modifies ghost_inDeque(queueOf(p, n), n), $LINKFX, n.state, p.weightedSize, p.windowWeightedSize, p.mainProtectedWeightedSize
 //@   ensures [C05:delete-unlinks] !ghost_inDeque(queueOf(p, n), n) && ghost_state(n) == 2
 //@   ensures [C07:uncounted-exactly-once] p.weightedSize == pre(p.weightedSize) - pickU64(pre(ghost_state(n)) != 2, uint64(weightOf(n)), 0)
+//@   ensures [policy-wf-kept] wfPolicy(p)
 
 //@ func (*policy).add : C04 C05 C07
 //@   requires ghost_hasSize() && ghost_hasState() && n != nil && wfPolicy(p) && p.maximum <= 1<<62
 //@   modifies $POLFX, ghost_calls_evictNode()
 //@   callback evictNode: requires [C07:overflow-justified] p.weightedSize > p.maximum || uint64(weightOf(cb_n)) > p.maximum
 //@   callback evictNode: requires [C07:zero-weight-pinned] weightOf(cb_n) != 0 || !alive(cb_n)
+//@   callback evictNode: requires [policy-wf-at-eviction] wfPolicy(p) && cb_n != nil
 //@   callback evictNode: modifies $EVICTFX
 //@   callback evictNode: ensures [evicted-node-dead] ghost_state(cb_n) == 2
+//@   callback evictNode: ensures [C06:one-notification-per-eviction] $EVDELTA == pre($EVDELTA)
 //@   ensures [C04:oversize-not-retained] pre(alive(n)) && uint64(weightOf(n)) > p.maximum ==> ghost_calls_evictNode() == pre(ghost_calls_evictNode()) + 1
 //@   ensures [C07:fits-not-evicted] uint64(weightOf(n)) <= p.maximum ==> ghost_calls_evictNode() == pre(ghost_calls_evictNode())
 //@   ensures [C05:add-links-alive-node] pre(alive(n)) && uint64(weightOf(n)) <= p.maximum ==> ghost_inDeque(p.window, n)
 //@   ensures [C05:out-of-order-add-not-linked] !pre(alive(n)) ==> ghost_calls_evictNode() == pre(ghost_calls_evictNode())
+//@   ensures [C06:evictions-notified-one-to-one] $EVDELTA == pre($EVDELTA)
+//@   ensures [policy-wf-kept] wfPolicy(p)
 
 //@ func (*policy).update : C04 C05 C07
 //@   requires ghost_hasSize() && ghost_hasState() && n != nil && old != nil && n != old && wfPolicy(p)
 //@   modifies $POLFX, ghost_calls_evictNode()
 //@   callback evictNode: requires [C07:overflow-justified] p.weightedSize > p.maximum || uint64(weightOf(cb_n)) > p.maximum
 //@   callback evictNode: requires [C07:zero-weight-pinned] weightOf(cb_n) != 0 || !alive(cb_n)
+//@   callback evictNode: requires [policy-wf-at-eviction] wfPolicy(p) && cb_n != nil
 //@   callback evictNode: modifies $EVICTFX
 //@   callback evictNode: ensures [evicted-node-dead] ghost_state(cb_n) == 2
+//@   callback evictNode: ensures [C06:one-notification-per-eviction] $EVDELTA == pre($EVDELTA)
 //@   ensures [C04:oversize-not-retained] uint64(weightOf(n)) > p.maximum ==> ghost_calls_evictNode() == pre(ghost_calls_evictNode()) + 1
 //@   ensures [C07:fits-not-evicted] uint64(weightOf(n)) <= p.maximum ==> ghost_calls_evictNode() == pre(ghost_calls_evictNode())
 //@   ensures [C05:update-transplants] pre(alive(n)) && uint64(weightOf(n)) <= p.maximum ==> ghost_inDeque(queueOf(p, n), n)
 //@   ensures [C05:old-unlinked-and-dead] ghost_state(old) == 2
+//@   ensures [C06:evictions-notified-one-to-one] $EVDELTA == pre($EVDELTA)
+//@   ensures [policy-wf-kept] wfPolicy(p)
 
 //@ func (*policy).evictFromWindow : C04 C05 C07
 //@   requires ghost_hasSize() && ghost_hasState() && wfPolicy(p)
@@ -980,9 +1018,14 @@ func estOf[K comparable](s *sketch[K], k K) uint64 {
 //@   callback evictNode: requires [C07:overflow-justified] p.weightedSize > p.maximum || uint64(weightOf(cb_n)) > p.maximum
 //@   callback evictNode: requires [C07:zero-weight-pinned] weightOf(cb_n) != 0 || !alive(cb_n)
 //@   callback evictNode: requires [evicts-a-node] cb_n != nil
+//@   callback evictNode: requires [policy-wf-at-eviction] wfPolicy(p) && cb_n != nil
 //@   callback evictNode: modifies $EVICTFX
 //@   callback evictNode: ensures [evicted-node-dead] ghost_state(cb_n) == 2
+//@   callback evictNode: ensures [C06:one-notification-per-eviction] $EVDELTA == pre($EVDELTA)
 //@   loop 1: invariant [policy-wf] wfPolicy(p) && ghost_hasSize() && ghost_hasState()
+//@   loop 1: invariant [C06:evictions-notified-one-to-one] $EVDELTA == pre($EVDELTA)
+//@   ensures [C06:evictions-notified-one-to-one] $EVDELTA == pre($EVDELTA)
+//@   ensures [policy-wf-kept] wfPolicy(p)
 
 //@ func (*policy).evictNodes : C04 C07
 //@   requires ghost_hasSize() && ghost_hasState() && wfPolicy(p)
@@ -990,15 +1033,20 @@ func estOf[K comparable](s *sketch[K], k K) uint64 {
 //@   callback evictNode: requires [C07:overflow-justified] p.weightedSize > p.maximum || uint64(weightOf(cb_n)) > p.maximum
 //@   callback evictNode: requires [C07:zero-weight-pinned] weightOf(cb_n) != 0 || !alive(cb_n)
 //@   callback evictNode: requires [evicts-a-node] cb_n != nil
+//@   callback evictNode: requires [policy-wf-at-eviction] wfPolicy(p) && cb_n != nil
 //@   callback evictNode: modifies $EVICTFX
 //@   callback evictNode: ensures [evicted-node-dead] ghost_state(cb_n) == 2
+//@   callback evictNode: ensures [C06:one-notification-per-eviction] $EVDELTA == pre($EVDELTA)
+//@   ensures [C06:evictions-notified-one-to-one] $EVDELTA == pre($EVDELTA)
+//@   ensures [policy-wf-kept] wfPolicy(p)
 
 //@ func (*cache).evictNode : C06 C07 C20 C05 C04
 //@   requires cfg(c) && c.singleflight != nil && n != nil && c.withMaintenance
 //@   requires [wiring] (c.withEviction ==> c.evictionPolicy != nil && wfPolicy(c.evictionPolicy)) && (c.withExpiration ==> c.expirationPolicy != nil)
-//@   modifies n.state, node::queueType, node::prev, node::next, node::prevExp, node::nextExp, ghost_inWheel(*), ghost_inDeque(*), policy::weightedSize, policy::windowWeightedSize, policy::mainProtectedWeightedSize, Linked::*, task::*, ghost_tbl(*), ghost_calls(*), $EVLOG, $ONDEL, $ATOMICEV
+//@   modifies n.state, node::queueType, node::prev, node::next, node::prevExp, node::nextExp, ghost_inWheel(*), ghost_inDeque(*), policy::weightedSize, policy::windowWeightedSize, policy::mainProtectedWeightedSize, Linked::*, ghost_tbl(*), ghost_calls(*), $EVLOG, $ONDEL, $ATOMICEV
 //@   ensures [C07:cause-expiration-only-after-deadline] c.onAtomicDeletion != nil && ghost_calls_onAtomicDeletion() != pre(ghost_calls_onAtomicDeletion()) ==> ghost_arg_onAtomicDeletion_2() == pickCause(c.withExpiration && ghost_expiresAt(n) <= nowNanos, CauseExpiration, CauseOverflow)
 //@   ensures [C06:deletion-event-iff-removed] c.onDeletion != nil ==> ghost_calls_onDeletion() == pre(ghost_calls_onDeletion()) + pickInt(ghost_lpCur(c.hashmap) == n, 1, 0)
+//@   ensures [C06:notification-iff-removed] ghost_calls_notifyDeletion() == pre(ghost_calls_notifyDeletion()) + pickInt(ghost_lpCur(c.hashmap) == n, 1, 0)
 //@   ensures [C06:same-cause-in-both-handlers] c.onDeletion != nil && c.onAtomicDeletion != nil && ghost_lpCur(c.hashmap) == n ==> ghost_arg_onDeletion_2() == ghost_arg_onAtomicDeletion_2() && same(ghost_arg_onDeletion_1[V](), ghost_value(n))
 //@   ensures [C20:eviction-counted-iff-removed] ghost_evictions() == pre(ghost_evictions()) + pickU64(ghost_lpCur(c.hashmap) == n, 1, 0) && ghost_evictionWeight() == pre(ghost_evictionWeight()) + pickU64(ghost_lpCur(c.hashmap) == n, uint64(weightOf(n)), 0)
 //@   ensures [C05:evicted-node-dead-and-unscheduled] ghost_state(n) == 2 && (c.withExpiration ==> !ghost_inWheel(n)) && (c.withEviction ==> !ghost_inDeque(queueOf(c.evictionPolicy, n), n))
@@ -1028,12 +1076,14 @@ func estOf[K comparable](s *sketch[K], k K) uint64 {
 //@   requires callsInBulk != nil
 //@   requires [call-map-wf] mapHas(callsInBulk, kstar) ==> callsInBulk[kstar] != nil && same(callsInBulk[kstar].key, kstar)
 //@   modifies map callsInBulk, call::value, call::err, call::isNotFound, $CACHEFX, ghost_calls_bulkLoad(), ghost_calls_afterFinish(), ghost_visited(*)
+//@   callback afterFinish: requires [C08:only-registered-calls-are-finished] cb_c != nil
 //@   callback afterFinish: modifies $CACHEFX
 //@   callback afterFinish: ensures [clock-stable] pre(ghost_clockRead()) ==> ghost_clockRead() && ghost_now() == pre(ghost_now())
 //@   loop 1: invariant [keys] callsInBulk != nil
 //@   loop 2: invariant [map-kept] mapHas(callsInBulk, kstar) == pre(mapHas(callsInBulk, kstar)) && callsInBulk[kstar] == pre(callsInBulk[kstar])
 //@   loop 2: invariant [C10:assign-supplied] ghost_visited(kstar) && mapHas(callsInBulk, kstar) && mapHas(res, kstar) ==> same(callsInBulk[kstar].value, res[kstar])
 //@   loop 2: invariant [C10:assign-unsupplied] ghost_visited(kstar) && mapHas(callsInBulk, kstar) && !mapHas(res, kstar) ==> callsInBulk[kstar].isNotFound && callsInBulk[kstar].err != nil
+//@   loop 3: invariant [C08:entries-are-records] mapHas(callsInBulk, kstar) ==> callsInBulk[kstar] != nil
 //@   loop 3: invariant [C10:extra-keys-become-fake-calls] pre(mapHas(callsInBulk, kstar)) ==> mapHas(callsInBulk, kstar) && callsInBulk[kstar] == pre(callsInBulk[kstar])
 //@   loop 3: invariant [C10:assigned-results-kept] pre(mapHas(callsInBulk, kstar)) ==> (mapHas(res, kstar) ==> same(callsInBulk[kstar].value, res[kstar])) && (!mapHas(res, kstar) ==> callsInBulk[kstar].isNotFound && callsInBulk[kstar].err != nil)
 //@   loop doBulkCall$1:1: invariant [C10:error-to-every-call] ghost_visited(kstar) && mapHas(callsInBulk, kstar) ==> callsInBulk[kstar].err == err && !callsInBulk[kstar].isNotFound
